@@ -178,12 +178,20 @@ DIMS = [
     Dim("hyperlinks", [("off", {}), ("on", {"hyperlinks": True})]),
     Dim("preset", [("none", {}), ("diff-so-fancy", {"diff-so-fancy": True}),
                    ("diff-highlight", {"diff-highlight": True})]),
+    Dim("features", [("none", {}), ("--features=diff-so-fancy", {"features": "diff-so-fancy"}),
+                     ("--features=navigate line-numbers", {"features": "navigate line-numbers"}),
+                     ("DELTA_FEATURES=+diff-so-fancy", {"_env_features": "+diff-so-fancy"}),
+                     ("DELTA_FEATURES=side-by-side", {"_env_features": "side-by-side diff-highlight"})]),
     Dim("commit-style", [("reserved", {}), ("default", {"commit-style": None}),
                          ("omit", {"commit-style": "omit", "_omit": ("commit",)})]),
     Dim("file-style", [("reserved", {}), ("default", {"file-style": None}),
                        ("omit", {"file-style": "omit", "_omit": ("meta",)})]),
     Dim("hunk-header-style", [("reserved", {}), ("default", {"hunk-header-style": None}),
                               ("omit", {"hunk-header-style": "omit", "_omit": ("frag",)})]),
+    Dim("deco-in-style", [("none", {}), ("file-box", {"file-style": "109 box"}),
+                          ("commit-underline", {"commit-style": "111 underline"}),
+                          ("hunk-raw-box", {"hunk-header-style": "raw box"}),
+                          ("file-ul-ol", {"file-style": "109 underline overline"})]),
     Dim("commit-deco", [("reserved", {}), ("box", {"commit-decoration-style": "119 box"}),
                         ("ul", {"commit-decoration-style": "119 ul"})]),
     Dim("file-deco", [("reserved", {}), ("box", {"file-decoration-style": "117 box"}),
@@ -208,11 +216,17 @@ def run_task(task):
         else:
             opts[k] = v
     o = base_opts(opts)
+    # decoration styles are left to delta's own resolution unless the configuration sets them (an
+    # explicit decoration option on the command line would mask how features / presets resolve them)
+    for k in ("file-decoration-style", "hunk-header-decoration-style", "commit-decoration-style"):
+        if k not in opts:
+            o[k] = None
     o["color-only"] = True
     args = build_args(o)
     drv = explore.get_driver()
+    env = {"features": ocfg["env_features"]} if ocfg.get("env_features") else None
     try:
-        cid = drv.mkconfig(args)
+        cid = drv.mkconfig(args, env)
     except explore.Rejected as e:
         return {"label": label, "spec": spec, "rejected": str(e)}
     nsec, kinds, bodies, coloured = spec
